@@ -370,3 +370,212 @@ example (Y : Interp Nat) : (∀ r ∈ exE, r.sat Y Y = true) ↔ ∀ n, exN n = 
     rcases hr with rfl | rfl | rfl <;> simp [Rule.sat, Rule.bodyHolds, Rule.headHolds, hv] <;> cases Y 0 <;> simp
 
 end TelProofs.DefExt
+
+namespace TelProofs.DefExt
+
+/-! ### theory atoms in rule bodies are evaluated in the total world
+
+`P` may now mention the fresh atoms in rule *bodies* (a program atom for `&tel{…}` occurs where the theory atom stood);
+its heads do not contain them.  Then `X` is a stable model of `P ∪ E` iff `X` is good for `E` and `X`, cut to the old
+atoms, is a stable model of `P` with every fresh body literal replaced by its truth value in `X` itself. -/
+
+variable {α : Type}
+
+/-- `P` with the literals on fresh atoms evaluated in `Y`: a rule with a false one disappears, true ones are dropped -/
+def stripRule (N : α → Bool) (r : Rule α) : Rule α :=
+  { head := r.head, choice := r.choice, pos := r.pos.filter (fun a => !(N a)), neg := r.neg.filter (fun a => !(N a)),
+    nneg := r.nneg.filter (fun a => !(N a)) }
+
+def evalRule (N : α → Bool) (Y : Interp α) (r : Rule α) : Option (Rule α) :=
+  if (r.pos.filter N).all Y && (r.neg.filter N).all (fun a => !(Y a)) && (r.nneg.filter N).all Y then
+    some (stripRule N r)
+  else none
+
+def evalProg (N : α → Bool) (Y : Interp α) (P : List (Rule α)) : List (Rule α) := P.filterMap (evalRule N Y)
+
+theorem all_split (N : α → Bool) (l : List α) (f : α → Bool) :
+    l.all f = ((l.filter N).all f && (l.filter (fun a => !(N a))).all f) := by
+  induction l with
+  | nil => rfl
+  | cons x xs ih =>
+    simp only [List.all_cons, List.filter_cons]
+    cases hN : N x <;> simp [ih, Bool.and_assoc, Bool.and_left_comm]
+
+/-- if `W` agrees with `T` on the fresh atoms, a rule is satisfied by `(W, T)` iff its evaluation w.r.t. `T` is
+    (or it has disappeared) -/
+theorem sat_eval (N : α → Bool) (r : Rule α) (W T W0 T0 : Interp α) (hhead : ∀ a ∈ r.head, N a = false)
+    (hWN : ∀ a, N a = true → W a = T a)
+    (hW0 : ∀ a, N a = false → W0 a = W a) (hT0 : ∀ a, N a = false → T0 a = T a) :
+    r.sat W T = (match evalRule N T r with | some r' => r'.sat W0 T0 | none => true) := by
+  have hposN : (r.pos.filter N).all W = (r.pos.filter N).all T :=
+    all_congr (fun a ha => hWN a (by simpa using (List.mem_filter.mp ha).2))
+  have hposO : (r.pos.filter (fun a => !(N a))).all W = (r.pos.filter (fun a => !(N a))).all W0 :=
+    all_congr (fun a ha => (hW0 a (by simpa using (List.mem_filter.mp ha).2)).symm)
+  have hnegO : (r.neg.filter (fun a => !(N a))).all (fun a => !(T a)) = (r.neg.filter (fun a => !(N a))).all (fun a => !(T0 a)) :=
+    all_congr (fun a ha => by simp [hT0 a (by simpa using (List.mem_filter.mp ha).2)])
+  have hnnO : (r.nneg.filter (fun a => !(N a))).all T = (r.nneg.filter (fun a => !(N a))).all T0 :=
+    all_congr (fun a ha => (hT0 a (by simpa using (List.mem_filter.mp ha).2)).symm)
+  have hbody : r.bodyHolds W T =
+      (((r.pos.filter N).all T && (r.neg.filter N).all (fun a => !(T a)) && (r.nneg.filter N).all T) &&
+       ((r.pos.filter (fun a => !(N a))).all W0 && (r.neg.filter (fun a => !(N a))).all (fun a => !(T0 a)) &&
+        (r.nneg.filter (fun a => !(N a))).all T0)) := by
+    simp only [Rule.bodyHolds]
+    rw [all_split N r.pos W, all_split N r.neg (fun a => !(T a)), all_split N r.nneg T, hposN, hposO, hnegO, hnnO]
+    cases (r.pos.filter N).all T <;> cases (r.neg.filter N).all (fun a => !(T a)) <;> cases (r.nneg.filter N).all T <;>
+      simp [Bool.and_assoc, Bool.and_left_comm, Bool.and_comm]
+  have hheadEq : r.headHolds W T = (stripRule N r).headHolds W0 T0 := by
+    simp only [Rule.headHolds, stripRule]
+    rw [all_congr (l := r.head) (f := fun a => W a || !(T a)) (g := fun a => W0 a || !(T0 a))
+          (fun a h => by simp [hW0 a (hhead a h), hT0 a (hhead a h)]),
+        any_congr (l := r.head) (f := W) (g := W0) (fun a h => (hW0 a (hhead a h)).symm)]
+    all_goals rfl
+  unfold evalRule
+  by_cases hc : ((r.pos.filter N).all T && (r.neg.filter N).all (fun a => !(T a)) && (r.nneg.filter N).all T) = true
+  · simp only [hc, if_true]
+    simp only [Rule.sat, hbody, hc, Bool.true_and, hheadEq]
+    simp only [Rule.bodyHolds, stripRule]
+  · have hc' : ((r.pos.filter N).all T && (r.neg.filter N).all (fun a => !(T a)) && (r.nneg.filter N).all T) = false := by
+      cases h : ((r.pos.filter N).all T && (r.neg.filter N).all (fun a => !(T a)) && (r.nneg.filter N).all T)
+      · rfl
+      · exact absurd h hc
+    simp only [hc', Bool.false_eq_true, if_false]
+    simp only [Rule.sat, hbody, hc', Bool.false_and, Bool.not_false, Bool.true_or]
+
+section
+variable (P E : List (Rule α)) (N : α → Bool)
+variable (hP : ∀ r ∈ P, ∀ a ∈ r.head, N a = false) (hE : ∀ r ∈ E, EShape N r)
+include hP hE
+
+theorem evalProg_sat_iff (W T W0 T0 : Interp α) (hWN : ∀ a, N a = true → W a = T a)
+    (hW0 : ∀ a, N a = false → W0 a = W a) (hT0 : ∀ a, N a = false → T0 a = T a) :
+    (∀ r ∈ P, r.sat W T = true) ↔ (∀ r' ∈ evalProg N T P, r'.sat W0 T0 = true) := by
+  constructor
+  · intro h r' hr'
+    simp only [evalProg, List.mem_filterMap] at hr'
+    obtain ⟨r, hr, he⟩ := hr'
+    have := sat_eval N r W T W0 T0 (hP r hr) hWN hW0 hT0
+    rw [he] at this
+    simp only at this
+    rw [← this]; exact h r hr
+  · intro h r hr
+    rw [sat_eval N r W T W0 T0 (hP r hr) hWN hW0 hT0]
+    cases he : evalRule N T r with
+    | none => rfl
+    | some r' => exact h r' (by simp only [evalProg, List.mem_filterMap]; exact ⟨r, hr, he⟩)
+
+/-- **theory atoms are evaluated in the total world**: the stable models of `P ∪ E` are the interpretations that are
+    good for `E` and whose cut is a stable model of `P` with the fresh body literals replaced by their values in
+    the candidate itself -/
+theorem stable_iff_eval [DecidableEq α] (X : Interp α) :
+    Stable (P ++ E) X ↔ (Good E N X ∧ Stable (evalProg N X P) (cut N X)) := by
+  have hcutT : ∀ a, N a = false → cut N X a = X a := by intro a ha; simp [cut, ha]
+  constructor
+  · intro hs
+    have hgood : Good E N X := by
+      constructor
+      · exact fun r hr => hs.1 r (List.mem_append_right _ hr)
+      · intro n hN hX
+        obtain ⟨r, hr, hmem, hb⟩ := stable_supported hs n hX
+        rcases List.mem_append.mp hr with hrP | hrE
+        · have := hP r hrP n hmem
+          rw [this] at hN; cases hN
+        · exact ⟨r, hrE, hmem, hb⟩
+    refine ⟨hgood, ?_, ?_⟩
+    · exact (evalProg_sat_iff P E N hP hE X X (cut N X) (cut N X) (fun _ _ => rfl) hcutT hcutT).mp
+        (fun r hr => hs.1 r (List.mem_append_left _ hr))
+    · intro H0 hle hsat a
+      let H := glue N H0 X
+      have hH0le : Le H0 X := by
+        intro b hb
+        have := hle b hb
+        simp only [cut, Bool.and_eq_true] at this
+        exact this.1
+      have hleH : Le H X := by
+        intro b hb
+        simp only [H, glue] at hb
+        split at hb
+        · exact hb
+        · exact hH0le b hb
+      have hHN : ∀ b, N b = true → H b = X b := by intro b hb; simp [H, glue, hb]
+      have hH0 : ∀ b, N b = false → H0 b = H b := by intro b hb; simp [H, glue, hb]
+      have hsatH : ∀ r ∈ P ++ E, r.sat H X = true := by
+        intro r hr
+        rcases List.mem_append.mp hr with hrP | hrE
+        · exact (evalProg_sat_iff P E N hP hE H X H0 (cut N X) hHN hH0 hcutT).mpr hsat r hrP
+        · have hX := hs.1 r hr
+          -- as in `eshape_sat_glue`
+          rcases hE r hrE with ⟨hc, hp, hn, hnn, hNh⟩ | ⟨hh, hc⟩ | ⟨hc, hp, w, hh, hNw⟩
+          · simp only [Rule.sat, Rule.headHolds, hc, if_true, Bool.or_eq_true, Bool.not_eq_true', List.all_eq_true]
+            right
+            intro b hb
+            simp [H, glue, hNh b hb]
+          · simp only [Rule.sat, Rule.headHolds, hh, hc, Bool.false_eq_true, if_false, List.any_nil, Bool.or_false,
+              Bool.not_eq_true'] at hX ⊢
+            cases hb : r.bodyHolds H X
+            · rfl
+            · rw [body_mono hleH hb] at hX; cases hX
+          · simp only [Rule.sat, body_nopos hp, Rule.headHolds, hc, hh, Bool.false_eq_true, if_false, List.any_cons,
+              List.any_nil, Bool.or_false] at hX ⊢
+            simpa [H, glue, hNw] using hX
+      have heq := hs.2 H hleH hsatH a
+      by_cases hN : N a = true
+      · have h0 : cut N X a = false := by simp [cut, hN]
+        rw [h0]
+        cases hh : H0 a
+        · rfl
+        · have := hle a hh; rw [h0] at this; cases this
+      · have hN' : N a = false := by
+          cases h : N a
+          · rfl
+          · exact absurd h hN
+        rw [hH0 a hN', heq, hcutT a hN']
+  · rintro ⟨hgood, hst⟩
+    constructor
+    · intro r hr
+      rcases List.mem_append.mp hr with hrP | hrE
+      · exact (evalProg_sat_iff P E N hP hE X X (cut N X) (cut N X) (fun _ _ => rfl) hcutT hcutT).mpr hst.1 r hrP
+      · exact hgood.1 r hrE
+    · intro H hle hsat a
+      -- first the fresh atoms
+      have hHN : ∀ b, N b = true → H b = X b := by
+        intro b hN
+        cases hY : X b
+        · cases hh : H b
+          · rfl
+          · have := hle b hh; rw [hY] at this; cases this
+        · obtain ⟨r, hr, hmem, hbody⟩ := hgood.2 b hN hY
+          have hrs := hsat r (List.mem_append_right _ hr)
+          rcases hE r hr with ⟨hc, hp, hn, hnn, _⟩ | ⟨hh, _⟩ | ⟨hc, hp, w, hh, _⟩
+          · simp only [Rule.sat, Rule.bodyHolds, hp, hn, hnn, List.all_nil, Bool.and_self, Bool.not_true, Bool.false_or,
+              Rule.headHolds, hc, if_true, List.all_eq_true, Bool.or_eq_true, Bool.not_eq_true'] at hrs
+            rcases hrs b hmem with h1 | h1
+            · exact h1
+            · rw [hY] at h1; cases h1
+          · rw [hh] at hmem; cases hmem
+          · rw [hh] at hmem
+            have haw : b = w := by simpa using hmem
+            subst haw
+            simp only [Rule.sat, body_nopos hp, hbody, Bool.not_true, Bool.false_or, Rule.headHolds, hc,
+              Bool.false_eq_true, if_false, hh, List.any_cons, List.any_nil, Bool.or_false] at hrs
+            exact hrs
+      -- then the old ones, through the evaluated program
+      let H0 : Interp α := cut N H
+      have hH0 : ∀ b, N b = false → H0 b = H b := by intro b hb; simp [H0, cut, hb]
+      have hle0 : Le H0 (cut N X) := by
+        intro b hb
+        simp only [H0, cut, Bool.and_eq_true] at hb ⊢
+        exact ⟨hle b hb.1, hb.2⟩
+      have hsat0 : ∀ r' ∈ evalProg N X P, r'.sat H0 (cut N X) = true :=
+        (evalProg_sat_iff P E N hP hE H X H0 (cut N X) hHN hH0 hcutT).mp (fun r hr => hsat r (List.mem_append_left _ hr))
+      have heq0 := hst.2 H0 hle0 hsat0 a
+      by_cases hN : N a = true
+      · exact hHN a hN
+      · have hN' : N a = false := by
+          cases h : N a
+          · rfl
+          · exact absurd h hN
+        rw [← hH0 a hN', heq0, hcutT a hN']
+
+end
+
+end TelProofs.DefExt
